@@ -80,6 +80,9 @@ def parse_unit(s):
             if not re.match(r"^-?[1-9][0-9]*$", ex):
                 unspec = unspec or "exponent %r (zero or leading zeros)" % ex
                 continue
+            if len(ex) > 4:
+                unspec = unspec or "exponent with more than three digits"
+                continue
             e = int(ex)
         e *= sign
         for kind, base, mult in SYMBOLS[sym]:
